@@ -89,6 +89,53 @@ _IGNORE_SYMS = {"np", "numpy", "os", "math", "PI", "None", "True", "False", "int
                 "min", "max", "round", "abs", "range", "sum", "sorted", "isinstance", "type", "id", "WCS", "fits", "warnings"}
 
 
+_NORMALISERS = {"abspath", "realpath", "normpath", "normcase", "lower", "upper", "casefold", "expanduser", "resolve", "strip", "str", "tuple", "frozenset"}
+
+
+def _key_normaliser(t):
+    """Name of the normalising function a table key is wrapped in (os.path.abspath(x), x.lower(), ...), or None."""
+    if t[0] == "call":
+        f = t[1]
+        name = f[2] if f[0] == "attr" else (f[1] if f[0] == "sym" else None)
+        if name in _NORMALISERS:
+            return name
+    return None
+
+
+def _key_consistency(run, rule, project, modname, tabs, ev, modfuncs):
+    """Every access of one shared table must spell its key the same way: an entry stored under abspath(p) is not found (or not
+    removed) under p."""
+    module_names = {k for k, (kind, n) in tabs.items() if kind == "module"}
+    uses = {}
+    for f in modfuncs:
+        if f.module.kind != "py":
+            continue
+        if not any(isinstance(n, ast.Name) and n.id in module_names for n in own_nodes(f.node)):
+            continue
+        r = ev.run(f.node)
+        for e in r.events:
+            tname = key = how = None
+            if e.kind == "store" and e.term[1][0][0] == "sub" and e.term[1][0][1][0] == "sym":
+                tname, key, how = e.term[1][0][1][1].split("@")[0], e.term[1][0][2], "store"
+            elif e.kind == "call" and e.term[1][0] == "attr" and e.term[1][1][0] == "sym" and e.term[1][2] in ("get", "pop", "setdefault", "__contains__") and e.term[2]:
+                tname, key, how = e.term[1][1][1].split("@")[0], e.term[2][0], e.term[1][2]
+            elif e.kind == "del" and e.term[0] == "sub" and e.term[1][0] == "sym":
+                tname, key, how = e.term[1][1].split("@")[0], e.term[2], "del"
+            if tname in module_names:
+                uses.setdefault(tname, []).append((f, e, key, how))
+    for tname, us in sorted(uses.items()):
+        norms = {_key_normaliser(k) for f, e, k, how in us}
+        if len(norms) > 1:
+            with_n = [u for u in us if _key_normaliser(u[2]) is not None]
+            without = [u for u in us if _key_normaliser(u[2]) != _key_normaliser(with_n[0][2])]
+            f, e, k, how = without[0]
+            run.violated(rule, f, e.node, "module-level table `%s` is filled under keys normalised with %s(...) (%s) but accessed here (%s) with the key %s: the two "
+                         "spellings differ for some inputs (e.g. a relative path), so this %s misses the entry and a stale value is served later" % (
+                             tname, _key_normaliser(with_n[0][2]), with_n[0][0].short, how, show(k)[:80], how), kind="memo-key-inconsistent", table=tname)
+        elif us:
+            run.holds(rule, us[0][0], us[0][1].node, "table `%s`: every access spells its key the same way" % tname, table=tname)
+
+
 def check_module(run, rule, modname, funcs=None, only_funcs=None):
     """Apply both shared-state rules to the functions of *modname*.
     Returns the number of table uses examined."""
@@ -109,6 +156,7 @@ def check_module(run, rule, modname, funcs=None, only_funcs=None):
     importable = {"mid", "subsample"}
     mod = project.mod(modname)
     defined_funcs = {n.name for n in mod.tree.body if isinstance(n, (ast.FunctionDef, ast.ClassDef))}
+    _key_consistency(run, rule, project, modname, tabs, ev, modfuncs)
     for f in modfuncs:
         if f.module.kind != "py":
             continue
